@@ -72,10 +72,11 @@ type hpRequest struct {
 type hpScenario struct {
 	Name           string      `json:"name"`
 	Requests       []hpRequest `json:"requests"`
-	OneChunk       bool        `json:"one_chunk,omitempty"`  // all requests delivered in one read
-	Sequential     bool        `json:"sequential,omitempty"` // request i+1 is sent only after the response to request i arrived
-	Settle         bool        `json:"settle,omitempty"`     // with Sequential: ... and after the proxy went idle (its clean-up of request i ran)
-	Reverse        bool        `json:"reverse,omitempty"`    // the upstream answers only once all requests arrived, last request first
+	OneChunk       bool        `json:"one_chunk,omitempty"`         // all requests delivered in one read
+	Sequential     bool        `json:"sequential,omitempty"`        // request i+1 is sent only after the response to request i arrived
+	UpBreakAtWrite int         `json:"up_break_at_write,omitempty"` // the n-th write to an upstream connection (1-based, over all of them) finds the peer gone: it fails, the close event follows
+	Settle         bool        `json:"settle,omitempty"`            // with Sequential: ... and after the proxy went idle (its clean-up of request i ran)
+	Reverse        bool        `json:"reverse,omitempty"`           // the upstream answers only once all requests arrived, last request first
 	RouteTimeoutMs int         `json:"route_timeout_ms,omitempty"`
 	TryTimeoutMs   int         `json:"try_timeout_ms,omitempty"`
 	RetryOn        bool        `json:"retry_on,omitempty"`
@@ -403,11 +404,12 @@ func hpTimeAt(c *vfake.Conn, end int) int64 {
 // running one execution of a scenario
 
 type hpRun struct {
-	sc    *hpScenario
-	obs   *hpObs
-	proxy *proxy
-	cm    types.ClusterManager
-	done  bool
+	sc       *hpScenario
+	obs      *hpObs
+	proxy    *proxy
+	cm       types.ClusterManager
+	upWrites int
+	done     bool
 	// per token: attempts seen upstream (assigned when the request frame is observed)
 	attempt   map[string]int
 	reqByTk   map[string]*hpRequest
@@ -651,6 +653,15 @@ func (h *hpRun) onUpstreamConn(c *vfake.Conn) {
 		h.logf("conn%d to host%d: connect fails", idx, u.Host)
 		return
 	}
+	if h.sc.UpBreakAtWrite > 0 {
+		c.PreWrite = func(c *vfake.Conn) {
+			h.upWrites++
+			if h.upWrites == h.sc.UpBreakAtWrite && c.BreakPipe() {
+				h.logf("conn%d to host%d: peer gone before write %d", idx, u.Host, h.upWrites)
+				vrt.GoNamed("env:up-peer-close", func() { c.DeliverBroken() })
+			}
+		}
+	}
 	vrt.GoNamed(fmt.Sprintf("env:up-peer%d", idx), func() {
 		for {
 			var act string
@@ -865,6 +876,9 @@ func hpScenarioName(sc *hpScenario) string {
 	}
 	if len(sc.TimeoutHosts) > 0 {
 		s += fmt.Sprintf(" connect-timeout-hosts=%v/%d", sc.TimeoutHosts, sc.Hosts)
+	}
+	if sc.UpBreakAtWrite > 0 {
+		s += fmt.Sprintf(" up-break-at-write=%d", sc.UpBreakAtWrite)
 	}
 	if sc.NoRoute {
 		s += " no-route"
